@@ -116,6 +116,7 @@ var checks = []Check{
 		Rule:        "distinct inputs (byte strings, structured requests, backend reply texts/shapes), each evaluated once per enumerated environment (map order)",
 		Assumptions: append([]string{"memory is measured as runtime.MemStats.Sys inside the isolated child", "alphabet chosen from the RESP type bytes, digits, CR, LF, a letter and space"}, engineAssumptions...),
 		Jobs: []Job{
+			{Pkg: "proc/redis", Scenarios: []string{"C02/client"}, Shards: 16, QuickS: 120, ThoroughS: 240}, // malformed backend bytes under every schedule of senders, reader and writer
 			{Pkg: "proc/redis", Scenarios: []string{"C11/inputs"}, Shards: 16, QuickS: 150, ThoroughS: 240},
 			{Pkg: "proc/redis", Scenarios: []string{"C11/backend"}, Shards: 8, QuickS: 120, ThoroughS: 240},
 			{Pkg: "proc/redis", Scenarios: []string{"C11/end-to-end"}, Shards: 4, QuickS: 60, ThoroughS: 240},
@@ -130,7 +131,8 @@ var checks = []Check{
 			{Pkg: "proc/redis", Scenarios: []string{"C04/histories"}, Shards: 16, QuickS: 90, ThoroughS: 240},
 			{Pkg: "proc/redis", Scenarios: []string{"C02/stack-race"}, Race: true, Shards: 1, QuickS: 120, ThoroughS: 240},
 			{Pkg: "proc/redis", Scenarios: []string{"C02/redirect-target"}, Shards: 16, QuickS: 180, ThoroughS: 240},
-			{Pkg: "proc/redis", Scenarios: []string{"C09/redis-collect"}, Shards: 8, QuickS: 90, ThoroughS: 240}, // a host-removal notice (failover) while the hot-key collection runs
+			{Pkg: "proc/redis", Scenarios: []string{"C09/redis-collect"}, Shards: 8, QuickS: 90, ThoroughS: 240},       // a host-removal notice (failover) while the hot-key collection runs
+			{Pkg: "proc/redis", Scenarios: []string{"C02/upstream-redirect"}, Shards: 16, QuickS: 150, ThoroughS: 240}, // a host-removal / replace / stop racing a redirected request
 			{Pkg: "proc/redis", Scenarios: []string{"C04/asking"}, Shards: 16, QuickS: 90, ThoroughS: 240},
 			{Pkg: "proc/redis", Scenarios: []string{"C04/pipelined-redirect"}, Shards: 16, QuickS: 60, ThoroughS: 240},
 			{Pkg: "proc/redis", Scenarios: []string{"C04/failover-in-flight"}, Shards: 16, QuickS: 60, ThoroughS: 240},
@@ -146,7 +148,7 @@ var checks = []Check{
 			{Pkg: "proc/redis", Scenarios: []string{"C07/histories"}, Shards: 16, QuickS: 90, ThoroughS: 240},
 			{Pkg: "proc/redis", Scenarios: []string{"C02/upstream-redirect"}, Shards: 16, QuickS: 150, ThoroughS: 240},
 			{Pkg: "proc/redis", Scenarios: []string{"C02/stack-race"}, Race: true, Shards: 1, QuickS: 120, ThoroughS: 240},
-			{Pkg: "proc/redis", Scenarios: []string{"C07/concurrent-loss", "C07/connect-lost"}, Shards: 16, QuickS: 90, ThoroughS: 240},
+			{Pkg: "proc/redis", Scenarios: []string{"C07/concurrent-loss", "C07/connect-lost", "C07/cold-start"}, Shards: 16, QuickS: 90, ThoroughS: 240},
 			{Pkg: "proc/redis", Scenarios: []string{"C07/refresh-in-flight"}, Shards: 16, QuickS: 60, ThoroughS: 240},
 		},
 	},
@@ -228,6 +230,7 @@ var checks = []Check{
 			{Pkg: "proc/redis", Scenarios: []string{"C02/stack-race"}, Race: true, Shards: 1, QuickS: 120, ThoroughS: 240},
 			{Pkg: "proc/redis", Scenarios: []string{"C03/values"}, Shards: 16, QuickS: 60, ThoroughS: 240},
 			{Pkg: "proc/redis", Scenarios: []string{"C03/long-sessions", "C03/multi-key"}, Shards: 16, QuickS: 90, ThoroughS: 240},
+			{Pkg: "proc/redis", Scenarios: []string{"C12/reported-table"}, Shards: 8, QuickS: 60, ThoroughS: 240}, // a loaded table produces no redirection, however the owner is listed
 			{Pkg: "proc/redis", Scenarios: []string{"C03/refresh-concurrent"}, Shards: 16, QuickS: 60, ThoroughS: 240},
 			{Pkg: "proc/redis", Scenarios: []string{"C01/cold-start"}, Shards: 16, QuickS: 60, ThoroughS: 240},
 		},
@@ -275,6 +278,7 @@ var checks = []Check{
 			{Pkg: "proc/redis", Scenarios: []string{"C12/slots"}, Shards: 1, QuickS: 120, ThoroughS: 240},
 			{Pkg: "proc/redis", Scenarios: []string{"C12/concurrent"}, Shards: 4, QuickS: 60, ThoroughS: 240},
 			{Pkg: "proc/redis", Scenarios: []string{"C12/redirect-learning", "C12/reported-table"}, Shards: 4, QuickS: 60, ThoroughS: 240},
+			{Pkg: "proc/redis", Scenarios: []string{"C14/pipelines"}, Shards: 16, QuickS: 60, ThoroughS: 240}, // the key a node receives is the key that was routed
 			{Pkg: "proc/redis", Scenarios: []string{"C14/commands"}, Shards: 12, QuickS: 120, ThoroughS: 240}, // end to end: every forwarded command arrives at the owner of its first key
 		},
 	},
@@ -285,6 +289,7 @@ var checks = []Check{
 		Rule:        "states = canonical dumps of the real host.Set (three maps, cache, per-object flag/latch) reached by operation sequences; every state non-trivial (differs from all others); schedules = distinct choice sequences",
 		Assumptions: engineAssumptions,
 		Jobs: []Job{
+			{Pkg: "controller", Scenarios: []string{"C08/histories"}, Shards: 16, QuickS: 60, ThoroughS: 240}, // the same address removed and re-added with another type in one update, through the controller
 			{Pkg: "proc/tcp", Scenarios: []string{"C15/tcp-dials"}, Shards: 16, QuickS: 90, ThoroughS: 240},
 			{Pkg: "host", Scenarios: []string{"C15/history"}, Shards: 1, QuickS: 60, ThoroughS: 240},
 			{Pkg: "proc/internal/lb", Scenarios: []string{"C06/random-leastconn"}, Shards: 1, QuickS: 60, ThoroughS: 240},
